@@ -224,6 +224,11 @@ func Open(fileName string, opts *Options) (*AppendableFile, error) {
 		return nil, err
 	}
 
+	if fileOffset < fileBaseOffset {
+		// the header declares more metadata than the file holds
+		return nil, ErrCorruptedMetadata
+	}
+
 	return &AppendableFile{
 		f:                 f,
 		fileBaseOffset:    fileBaseOffset,
